@@ -45,4 +45,10 @@ META = {
         note="Deterministic pool reuse relies on the plain build with GC disabled during a history (under -race sync.Pool drops buffers at random, so the race build is a second, independent oracle).",
         technique="runtime monitor: before/after snapshot oracle across further reads; race detector on a concurrent reader of the retained message",
     ),
+    "C03": dict(
+        text="Exploration: hundreds of thousands of hostile inputs per run (structured corruptions enumerated per seed message, typed-length grids, nest bombs, random strings, 16 MiB extremes; thorough adds coverage-guided fuzzing) through every decoder and every post-decode inspection in child processes; a clean run means the decoders held on these inputs, not memory safety in general.",
+        design_ref="DESIGN.md section 4, C03",
+        note="Panics are observed by recover(), aborts by the child's exit status with the input logged beforehand, memory by runtime.MemStats.TotalAlloc deltas and a per-call goroutine stack cap (debug.SetMaxStack); Go's own bounds checks are the underlying sanitizer.",
+        technique="runtime monitoring under hostile inputs: recover/exit-status/allocation/stack-cap oracles in child processes (+ native fuzzing in the thorough tier)",
+    ),
 }
